@@ -4,6 +4,7 @@ import (
 	"fmt"
 	"go/ast"
 	"go/token"
+	"go/types"
 	"strings"
 
 	"czcheck/an"
@@ -315,6 +316,53 @@ func runC16(c *an.Ctx) {
 		c.Check(okComment, "R4", "comment lines are skipped before anything else", ps.Pos(), "'#' lines neither reach the line buffer nor evaluateLine", "a comment line can reach the line buffer or the directive evaluation")
 		c.Check(okBacktick, "R4", "an open backtick block is an error", ps.Pos(), "error return under inBackticks", "a data block left open at the end of the text is not reported")
 	}
+	// file context: the options object is shared by nested Include evaluations, which overwrite it; the
+	// parser's own position (current file, directory, root, line) is therefore copied into the options by the
+	// same function that invokes the directive, on every path to that call.
+	if el := c.Fn("R4", "internal/seclang.(*Parser).evaluateLine"); el != nil {
+		var dcall ssa.Instruction
+		an.Instrs(el, func(in ssa.Instruction) {
+			call, ok := in.(*ssa.Call)
+			if !ok || call.Call.IsInvoke() || call.Call.StaticCallee() != nil || len(call.Call.Args) != 1 {
+				return
+			}
+			if _, isB := call.Call.Value.(*ssa.Builtin); isB {
+				return
+			}
+			if strings.HasSuffix(tempName.ReplaceAllString(an.Expr(call.Call.Args[0]), ""), ".options") {
+				dcall = in
+			}
+		})
+		if dcall == nil {
+			c.Unknown("R4", "evaluateLine invokes the directive", el.Pos(), "no dynamic call with the parser's options found")
+		} else {
+			nCtx := 0
+			for _, fn := range c.P.ModFuncs {
+				if relPkg(fn) != "internal/seclang" {
+					continue
+				}
+				an.Instrs(fn, func(in ssa.Instruction) {
+					st, ok := in.(*ssa.Store)
+					if !ok {
+						return
+					}
+					dst := tempName.ReplaceAllString(an.Expr(st.Addr), "")
+					src := tempName.ReplaceAllString(an.Expr(st.Val), "")
+					// options.<...> = p.current<...> / p.root : a copy of the parser's position
+					_ = src
+					if !strings.Contains(dst, ".options.") || !loadsParserField(st.Val) {
+						return
+					}
+					nCtx++
+					fname := dst[strings.LastIndex(dst, ".")+1:]
+					ok = fn == el && st.Block().Dominates(dcall.Block())
+					c.Check(ok, "R4", "parser position "+fname+" is handed to every directive", st.Pos(), "copied in evaluateLine before the directive runs",
+						"the directive options' "+fname+" is copied from the parser in "+shortFn(an.RelName(fn))+", not before each directive call: after a nested Include returned, the shared options still describe the included file, so relative data files and error positions of the following directives resolve against the wrong file")
+				})
+			}
+			c.MinCount("R4", "parser position fields copied into the directive options", nCtx, 3)
+		}
+	}
 }
 
 func hasFactLike(f an.Facts, sub string) bool {
@@ -324,4 +372,22 @@ func hasFactLike(f an.Facts, sub string) bool {
 		}
 	}
 	return false
+}
+
+// loadsParserField: v is a load of a field of the seclang Parser struct (its position: file, dir, root, line).
+func loadsParserField(v ssa.Value) bool {
+	u, ok := v.(*ssa.UnOp)
+	if !ok {
+		return false
+	}
+	fa, ok := u.X.(*ssa.FieldAddr)
+	if !ok {
+		return false
+	}
+	t := fa.X.Type()
+	if p, ok := t.Underlying().(*types.Pointer); ok {
+		t = p.Elem()
+	}
+	n, ok := t.(*types.Named)
+	return ok && n.Obj().Name() == "Parser" && n.Obj().Pkg() != nil && strings.HasSuffix(n.Obj().Pkg().Path(), "/seclang")
 }
